@@ -3,6 +3,7 @@
 package internal
 
 import (
+	"sync"
 	"context"
 	"fmt"
 	"testing"
@@ -206,16 +207,7 @@ func TestVerifTickerStall(t *testing.T) {
 		t0 := int64(1_700_000_000_000_000_000) + int64(c)*1_000_000_000_000
 		vsetNow(t0)
 		s := NewStore(&StoreOptions[int, int]{MaxSize: 100})
-		deadline := time.Now().Add(3 * time.Second)
-		for time.Now().Before(deadline) {
-			s.policyMu.Lock()
-			ready := s.maintenanceTicker != nil
-			s.policyMu.Unlock()
-			if ready {
-				break
-			}
-			time.Sleep(time.Millisecond)
-		}
+		time.Sleep(150 * time.Millisecond) // the maintenance goroutine has created its ticker by now (not read here: no dependence on the field's name)
 		s.Set(1, 11, 1, 31*time.Second)
 		s.Wait()
 		s.policyMu.Lock()
@@ -234,6 +226,133 @@ func TestVerifTickerStall(t *testing.T) {
 		}
 		s.Close()
 		tr.op("trial", ss("92", i64(int64(c))), ss(b2s(ok)))
+	}
+	clockOff()
+}
+
+// C04 (and C03's assumption that the ticker keeps running): background maintenance must survive wake-ups at which the
+// policy lock is busy.  The lock is held across two wake-ups of the real maintenance goroutine; afterwards an entry with
+// a TTL of one second must still be reclaimed and reported EXPIRED about a tick after its deadline.
+func TestVerifMaintenanceSurvivesBusyLock(t *testing.T) {
+	tr := vopen(t, "busylock")
+	defer tr.close()
+	tr.init(0)
+	clockOff()
+	xrandOff()
+	trials := vscale(1, 4)
+	for c := 0; c < trials; c++ {
+		var mu sync.Mutex
+		expired := 0
+		s := NewStore(&StoreOptions[int, int]{MaxSize: 100, Listener: func(k, v int, reason RemoveReason) {
+			if reason == EXPIRED {
+				mu.Lock()
+				expired++
+				mu.Unlock()
+			}
+		}})
+		time.Sleep(time.Duration(200+300*c) * time.Millisecond)
+		s.policyMu.Lock()
+		time.Sleep(2300 * time.Millisecond) // two wake-ups find the lock busy
+		s.policyMu.Unlock()
+		s.Set(7, 70, 1, time.Second)
+		start := time.Now()
+		ok := false
+		for time.Since(start) < 9*time.Second {
+			mu.Lock()
+			n := expired
+			mu.Unlock()
+			if n > 0 && s.Len() == 0 {
+				ok = true
+				break
+			}
+			time.Sleep(20 * time.Millisecond)
+		}
+		late := time.Since(start) - time.Second
+		if !ok {
+			msg := fmt.Sprintf("an entry with a TTL of 1 s was not reclaimed 8 s after its deadline (Len %d, EXPIRED notifications %d); before it was stored the policy lock had been held for 2.3 s, across two wake-ups of the maintenance goroutine", s.Len(), expired)
+			tr.viol("C04: " + msg)
+			tr.viol("C03: background maintenance stopped: " + msg)
+		}
+		tr.op("trial", ss("91", i64(int64(c))), ss(b2s(ok), i64(int64(late/time.Millisecond)/1000)))
+		s.Close()
+	}
+}
+
+// a secondary cache whose Get takes (virtual) time: the clock moves while the lookup is in progress
+type vslowclocksec struct {
+	m     map[int][3]int64
+	onGet func()
+}
+
+func (s *vslowclocksec) Get(key int) (int, int64, int64, bool, error) {
+	e, ok := s.m[key]
+	if s.onGet != nil {
+		s.onGet()
+	}
+	if !ok {
+		return 0, 0, 0, false, nil
+	}
+	return int(e[0]), e[1], e[2], true, nil
+}
+func (s *vslowclocksec) Set(key int, value int, cost int64, expire int64) error {
+	s.m[key] = [3]int64{int64(value), cost, expire}
+	return nil
+}
+func (s *vslowclocksec) Delete(key int) error { delete(s.m, key); return nil }
+func (s *vslowclocksec) HandleAsyncError(err error) {}
+
+// C03 (and C14) in the hybrid cache: a copy in the secondary tier whose deadline passes WHILE the (slow) secondary
+// lookup is in progress must not be promoted and returned: when the lookup returns, the deadline has passed.
+func TestVerifSlowSecondaryDeadline(t *testing.T) {
+	tr := vopen(t, "slowsecdeadline")
+	defer tr.close()
+	tr.init(0)
+	xrandOff()
+	r := &vrng{s: vseed()*2147483647 + 3}
+	trials := vscale(40, 800)
+	for c := 0; c < trials; c++ {
+		t0 := int64(1_700_000_000_000_000_000) + int64(r.next()%(1<<40))
+		vsetNow(t0)
+		sec := &vslowclocksec{m: map[int][3]int64{}}
+		s := NewStore(&StoreOptions[int, int]{MaxSize: 100, SecondaryCache: sec, Workers: 1, Probability: 1})
+		s.timerwheel.clock.Start = time.Unix(0, 0)
+		s.timerwheel.clock.RefreshNowCache()
+		ls := NewLoadingStore(s)
+		loads := 0
+		ls.Loader(func(ctx context.Context, key int) (Loaded[int], error) {
+			loads++
+			return Loaded[int]{Value: 222, Cost: 1}, nil
+		})
+		key := r.intn(1000)
+		left := int64(1 + r.intn(1_000_000))  // the copy has this long to live when the lookup starts
+		took := left + int64(r.intn(1_000_000)) // ... and the lookup takes at least that long
+		if c%5 == 4 {
+			took = left - 1 - int64(r.intn(int(left))) // control: the lookup returns in time, the copy is served
+		}
+		deadline := t0 + left
+		sec.m[key] = [3]int64{111, 1, deadline}
+		sec.onGet = func() { vsetNow(t0 + took) }
+		var v int
+		var ok bool
+		loading := c%2 == 0
+		if loading {
+			v, _ = ls.Get(context.Background(), key)
+			ok = true
+		} else {
+			v, ok, _ = s.GetWithSecodary(key)
+		}
+		sec.onGet = nil
+		now := t0 + took
+		if now >= deadline && ok && v == 111 {
+			msg := fmt.Sprintf("hybrid %s: the copy of key %d in the secondary tier had %d ns to live when the lookup started and the lookup took %d ns; the value was returned %d ns after its deadline", map[bool]string{true: "loading Get", false: "Get"}[loading], key, left, took, now-deadline)
+			tr.viol("C03: " + msg)
+			tr.viol("C14: " + msg)
+		}
+		if now < deadline && (!ok || v != 111) {
+			tr.viol(fmt.Sprintf("C14: hybrid Get of key %d answered (%d,%v) although its copy in the secondary tier still had %d ns to live", key, v, ok, deadline-now))
+		}
+		tr.op("trial", ss("90", b2s(loading), i64(left), i64(took)), ss(i64(int64(v))))
+		s.Close()
 	}
 	clockOff()
 }
